@@ -304,16 +304,29 @@ func wireRun(c wireCase) *pbt.Fail {
 		return pbt.Failf(sig, fmt.Sprintf("%s (alteration: %s of %s in round %d)", d, c.Tamper.Kind, rep.Applied.Generic, c.Tamper.Round))
 	}
 	if c.Tamper.Kind == "value" && !c.Tamper.Early && catalogue[catKey(c.Setup.Proto, c.Tamper.Round, c.Tamper.Broadcast, rep.Applied.Generic)] {
+		// The catalogue was established with two parties, where the one honest recipient is the party that verifies the
+		// altered field. With more parties a field may be verified by ONE recipient only (an entry of a per-recipient map in
+		// a broadcast): the others never see a failing verification and may legitimately end anonymously (echo mismatch) or
+		// through a relayed notice. There the requirement is that the sender IS identified by at least one honest party.
+		named := 0
 		for _, id := range rep.Honest {
 			if !rep.Applied.Reached[string(id)] || rep.Relayed[id] {
 				continue
 			}
-			if !rep.BlamesExactly(id) {
+			if rep.BlamesExactly(id) {
+				named++
+				continue
+			}
+			if c.Setup.N == 2 {
 				o := rep.Outcome[id]
 				return pbt.Failf(fmt.Sprintf("not-attributed:%s:r%d:%s", c.Setup.Proto, c.Tamper.Round, rep.Applied.Generic),
 					fmt.Sprintf("honest party %q received an altered %s (round %d, broadcast=%v) from %q but does not end with an error naming exactly the sender: finished=%v culprits=%v err=%v",
 						id, rep.Applied.Generic, c.Tamper.Round, c.Tamper.Broadcast, rep.Cheater, o.Finished, o.Culprits, o.Err))
 			}
+		}
+		if c.Setup.N > 2 && named == 0 {
+			return pbt.Failf(fmt.Sprintf("not-attributed:%s:r%d:%s", c.Setup.Proto, c.Tamper.Round, rep.Applied.Generic),
+				fmt.Sprintf("no honest party attributes the altered %s (round %d, broadcast=%v) to its sender %q: %s", rep.Applied.Generic, c.Tamper.Round, c.Tamper.Broadcast, rep.Cheater, rep.Summary()))
 		}
 	}
 	return nil
